@@ -50,8 +50,18 @@ def code_for(me, ret, fresh=False):
         _codes[key] = compile(src, PATH, 'exec')
     return _codes[key]
 # BIG + k: a fresh object of an uncommon size - once dropped, the next object of that size takes over its address
-WATCHES = ['locals()', 'globals()', 'a', 'd', 'd[0]', '[a]', 'g', 'e["d"]', 'G2', 'b', 'BIG + 1', 'BIG + 2']
+# NEST: a structure of several hundred nodes that only a watch reaches, then watches on parts of it
+WATCHES = ['locals()', 'globals()', 'a', 'd', 'd[0]', '[a]', 'g', 'e["d"]', 'G2', 'b', 'BIG + 1', 'BIG + 2',
+           'NEST.v', 'NEST.v[0][0]', 'NEST.v[9]']
 _code = compile(SRC, PATH, 'exec')
+
+
+class Holder:
+    """Keeps a large structure out of the module namespace walk (no attribute dictionary): only a watch reaches it."""
+    __slots__ = ('v',)
+
+    def __init__(self, v):
+        self.v = v
 
 
 OUTER_SRC = '''def target(a, b):
@@ -268,7 +278,7 @@ class C07(Prop):
                 out.violate('trace_call raised %s' % lab.exc_bucket(e))
             return v
 
-        ns = {'BIG': 1 << 3000, 'V': vals, 'I0': i0, 'I1': i1, 'I2': i2, 'HIT': HIT, 'DONE': DONE, '__name__': 'c07_mod'}
+        ns = {'NEST': Holder([[[i, j, 'x%d' % j] for j in range(10)] for i in range(10)]), 'BIG': 1 << 3000, 'V': vals, 'I0': i0, 'I1': i1, 'I2': i2, 'HIT': HIT, 'DONE': DONE, '__name__': 'c07_mod'}
         import threading
         t = threading.Thread(target=exec, args=(code_for(me, capture, recipe.get('ret_fresh') or False), ns), name='c07-prog')   # small, engine-free stack below
         t.start()
